@@ -201,15 +201,9 @@ def handle (j : Json) : R Json := do
             return Json.mkObj [("bad", jarr [Json.str "class-props", jnat 0, Json.str m])]
     let env := mkEnv t .none
     let mut i := 0
-    -- the datatype objects of the parameters (trees of C01-C03), where the harness could read them: a scaled limit that
-    -- is not a grid value (`exportableB` false) marks the recorded finding `scaled-limit-off-grid`
-    let trees ← match j.getObjVal? "trees" with
-      | .error _ => pure []
-      | .ok a => (← arr a).mapM (fun x => do
-          return (s!"{← fldStr x "m"}:{← fldStr x "a"}", ← Frappy.Drive.C03.dinfoOfJson (← fld x "inst")))
-    let offGrid (ma : String) : Bool := match trees.find? (·.1 == ma) with
-      | some (_, tr) => !tr.exportableB
-      | none => false
+    -- (the datatype trees of the parameters, field "trees", were used until the repair of `ScaledInteger.validate` to
+    -- attribute a disagreement at a scaled limit off the grid to the recorded finding `scaled-limit-off-grid`; the
+    -- finding is fixed: such a disagreement is a violation like any other)
     -- every failing item is reported (one finding must not hide another kind of failure in the same node)
     let mut bads : List Json := []
     -- requests: report against behaviour
@@ -242,7 +236,7 @@ def handle (j : Json) : R Json := do
               | .change =>
                 -- which clause failed: the flag, or the described datainfo (a payload it excludes was taken)
                 if probeOKB r1 { pr with clientAccepts := true } then
-                  cond (offGrid s!"{m}:{a}") "datainfo-not-honoured:scaled-limit-off-grid" "datainfo-not-honoured"
+                  "datainfo-not-honoured"
                 else "flag-not-honoured"
               | .read => "constant-not-read"
               | .do_ => "command-datainfo-not-honoured"
@@ -263,9 +257,7 @@ def handle (j : Json) : R Json := do
     for s in ← fldArr j "dichecks" do
       let c : DatainfoCheck := ⟨← fldStr s "m", ← fldStr s "a", ← fldBool s "client", ← fldBool s "node"⟩
       if !(datainfoAgreeB c) then
-        let what := cond (offGrid s!"{c.m}:{c.a}")
-          "datainfo-disagrees:scaled-limit-off-grid" "datainfo-disagrees"
-        bads := bads ++ [jarr [Json.str what, jnat i, Json.str s!"{c.m}:{c.a}"]]
+        bads := bads ++ [jarr [Json.str "datainfo-disagrees", jnat i, Json.str s!"{c.m}:{c.a}"]]
       i := i + 1
     i := 0
     for s in ← fldArr j "imports" do
